@@ -66,22 +66,27 @@ fn dump_dir(vm: &Vm, dir: RawDirectory, path: &str, depth: usize, out: &mut BTre
                 r?;
             }
         } else {
+            // a file that cannot be read is recorded with no data; the rest of the tree is still dumped
             let data = if le.size > (1 << 20) {
                 None
             } else {
-                let f = vm.open_file_in_dir(dir, &sfn, Mode::ReadOnly).map_err(|e| format!("open_file({}): {:?}", p, map_err(&e)))?;
-                let mut buf = vec![0u8; le.size as usize + 16];
-                let mut got = 0;
-                loop {
-                    let n = vm.read(f, &mut buf[got..]).map_err(|e| format!("read({}): {:?}", p, map_err(&e)))?;
-                    if n == 0 {
-                        break;
-                    }
-                    got += n;
-                }
-                buf.truncate(got);
-                let _ = vm.close_file(f);
-                Some(buf)
+                (|| -> Result<Vec<u8>, String> {
+                    let f = vm.open_file_in_dir(dir, &sfn, Mode::ReadOnly).map_err(|e| format!("open_file({}): {:?}", p, map_err(&e)))?;
+                    let mut buf = vec![0u8; le.size as usize + 16];
+                    let mut got = 0;
+                    let r = loop {
+                        match vm.read(f, &mut buf[got..]) {
+                            Ok(0) => break Ok(()),
+                            Ok(n) => got += n,
+                            Err(e) => break Err(format!("read({}): {:?}", p, map_err(&e))),
+                        }
+                    };
+                    let _ = vm.close_file(f);
+                    r?;
+                    buf.truncate(got);
+                    Ok(buf)
+                })()
+                .ok()
             };
             out.insert(p, Seen { ent: le, is_dir, data });
         }
@@ -108,3 +113,44 @@ pub fn remount_dump(img: &Image, slot: usize) -> Result<BTreeMap<String, Seen>, 
 }
 
 pub fn _e(_: E) {}
+
+fn list_dir_rec(vm: &Vm, dir: RawDirectory, path: &str, depth: usize, count: &mut usize) -> Result<(), String> {
+    let mut ents: Vec<(ListEnt, ShortFileName)> = Vec::new();
+    vm.iterate_dir(dir, |de| ents.push((list_ent(de, None), de.name.clone())))
+        .map_err(|e| format!("iterate_dir({}): {:?}", path, map_err(&e)))?;
+    for (le, sfn) in ents {
+        *count += 1;
+        if *count > 20000 {
+            return Err("listing does not terminate (more than 20000 entries)".into());
+        }
+        if le.attr & 0x08 != 0 || &le.name == b".          " || &le.name == b"..         " {
+            continue;
+        }
+        if le.attr & 0x10 != 0 && depth < 5 {
+            let p = format!("{}/{}", path, refat::name_to_string(&le.name));
+            let sub = vm.open_dir(dir, &sfn).map_err(|e| format!("open_dir({}): {:?}", p, map_err(&e)))?;
+            let r = list_dir_rec(vm, sub, &p, depth + 1, count);
+            let _ = vm.close_dir(sub);
+            r?;
+        }
+    }
+    Ok(())
+}
+
+/// Mount and list the whole tree (no file reads).
+pub fn remount_list(img: &Image, slot: usize) -> Result<usize, String> {
+    let img = img.clone();
+    match catch_quiet(move || {
+        let disk = SimDisk::new(img);
+        disk.set_horizon(2_000_000);
+        let vm: Vm = VolumeManager::new_with_limits(disk, Clock::new(), 100);
+        let v = vm.open_raw_volume(VolumeIdx(slot)).map_err(|e| format!("open_volume: {:?}", map_err(&e)))?;
+        let root = vm.open_root_dir(v).map_err(|e| format!("open_root_dir: {:?}", map_err(&e)))?;
+        let mut n = 0;
+        list_dir_rec(&vm, root, "", 0, &mut n)?;
+        Ok(n)
+    }) {
+        Caught::Ok(r) => r,
+        Caught::Panic(m) => Err(format!("panic: {}", m)),
+    }
+}
